@@ -277,9 +277,15 @@ class ServerSet(object):
     ChildrenWatch(self._zk, self._zk_path, self._on_set_changed)
 
   def _send_all_removed(self):
-    for k in self._members.keys():
-      member = self._members.pop(k)
-      self._on_leave(member)
+    # The watched path is gone: forget everything we knew about its children so
+    # that members created after it comes back are reported again.
+    members, self._members = self._members, {}
+    self._nodes = set()
+    for member in members.values():
+      try:
+        self._on_leave(member)
+      except Exception:
+        self._log.exception('Error in OnLeave callback.')
 
   def _notification_worker(self):
     """'Atomically' raise notifications for join / leave.
